@@ -24,7 +24,12 @@ RULE = ("graph stream (exhaustive): every DAG on <=4 labelled nodes (quick and t
         "optional latents, string/int state names: do() structure and CPDs for every node subset (<=4 nodes) "
         "and query for every single do-variable, every pair (incl. parent-child) and sampled triples, over "
         "admissible and refused query sets, both back-ends, default and every enumerated back-door set, "
-        "compared with the as-coded model and with the truncated factorisation.  A case is non-trivial when "
+        "compared with the as-coded model and with the truncated factorisation.  sess stream: m1 = model.do(S1), "
+        "m1.do(S2, inplace=True) on nodes with parents, m2 = m1.do(S3), m2.do(S4, inplace=True), then in-place CPD "
+        "edits (marginalize/reduce/normalize/value assignment), add_cpds replacement and remove_node on a fresh "
+        "do() result: every do() result equals the model's chained do(), and the network each result was derived "
+        "from still equals its snapshot (edges, latents, every CPD by named assignment, check_model) and still "
+        "answers an interventional query as the model does.  A case is non-trivial when "
         "the graph has an edge and (bn) some query used a non-empty adjustment set / (graph) some pair has a "
         "back-door path; distinct = distinct canonical case")
 TRUSTED_BASE = ["inner VariableElimination/BeliefPropagation posteriors are modelled by their specification "
@@ -98,6 +103,16 @@ def cases(tier, seed):
         c = bn_case(rng, n, edges, [], deterministic=True)
         c["kind"] = "sim"
         out.append(c)
+    # ---- sessions: do() results edited in place must never change the network they were derived from
+    sess = [bn_case(rng, 4, [(0, 1), (1, 2), (2, 3), (0, 3)], [])]            # Z -> A -> B -> C, Z -> C
+    for i in range(90 if not thorough else 800):
+        n = rng.choice([3, 4, 4, 5])
+        nodes, edges = common.rand_dag(rng, n, p=rng.choice([0.5, 0.7, 0.9]))
+        lat = sorted(rng.sample(range(n), 1)) if rng.random() < 0.2 else []
+        sess.append(bn_case(rng, n, edges, lat))
+    for c in sess:
+        c["kind"] = "sess"
+        out.append(c)
     return out
 
 
@@ -137,7 +152,7 @@ def shrink(case):
             c = dict(case)
             c["lat"] = case["lat"][:i] + case["lat"][i + 1:]
             yield c
-    elif case["kind"] == "bn":
+    elif case["kind"] in ("bn", "sess"):
         for i in range(len(case["lat"])):
             c = dict(case)
             c["lat"] = case["lat"][:i] + case["lat"][i + 1:]
@@ -704,6 +719,217 @@ def run_sim(case, drv):
               key=common.canon_key(["sim", n, case["edges"], case["cpds"], case["qseed"]]), tags=tags)
 
 
+# ------------------------------------------------------------------ sessions: do() results edited in place
+def snapshot(m, names, sn, idx):
+    """observable state of a network: sorted edges, latents, every CPD's scope and values by named assignment"""
+    cp = {}
+    for cpd in m.get_cpds():
+        v, ps, tab = cpd_canon_impl(cpd, names, sn, idx)
+        cp.setdefault(v, []).append((ps, tab))
+    return {"edges": sorted((idx[a], idx[b]) for a, b in m.edges()), "nodes": sorted(idx[u] for u in m.nodes()),
+            "lat": sorted(idx[u] for u in m.latents), "cpds": cp}
+
+
+def snapshot_diff(a, b):
+    for k in ("edges", "nodes", "lat"):
+        if a[k] != b[k]:
+            return {"what": k, "before": a[k], "after": b[k]}
+    if set(a["cpds"]) != set(b["cpds"]):
+        return {"what": "cpd-set", "before": sorted(a["cpds"]), "after": sorted(b["cpds"])}
+    for v in a["cpds"]:
+        if a["cpds"][v] != b["cpds"][v]:
+            pa, pb = a["cpds"][v][0], b["cpds"][v][0]
+            return {"what": "cpd", "node": v, "parents_before": pa[0], "parents_after": pb[0],
+                    "values_before": sorted(pa[1].items())[:8], "values_after": sorted(pb[1].items())[:8]}
+    return None
+
+
+def state_of(case):
+    return model_bn(case)
+
+
+def state_do(drv, state, Xs):
+    """the model's do() applied to a tracked state [nodes, edges, lat, cards, cpds]"""
+    me, mc = drv.call("c13_do", state + [list(Xs)])
+    cp = [[c[0], list(c[1]), [common.frac(q) for q in c[2]]] for c in mc]
+    return [state[0], [list(e) for e in me], state[2], state[3], cp]
+
+
+def cmp_state(d, state, case, names, sn, idx):
+    """does the pgmpy network d equal the tracked model state?  -> None | detail"""
+    n = case["n"]
+    ie = sorted((idx[a], idx[b]) for a, b in d.edges())
+    if ie != sorted(map(tuple, state[1])) or sorted(idx[u] for u in d.nodes()) != list(range(n)):
+        return {"what": "edges", "impl": ie, "model": sorted(map(tuple, state[1]))}
+    mcs = {}
+    for c in state[4]:
+        v, ps, tab = cpd_canon_model([c[0], c[1], [[q.numerator, q.denominator] for q in c[2]]], case["cards"])
+        mcs[v] = (ps, tab)
+    if len(d.get_cpds()) != n:
+        return {"what": "cpd-count", "impl": len(d.get_cpds())}
+    for cpd in d.get_cpds():
+        v, ps, tab = cpd_canon_impl(cpd, names, sn, idx)
+        mps, mtab = mcs[v]
+        if ps != mps or set(tab) != set(mtab) or any(not common.approx(tab[k], mtab[k]) for k in tab):
+            return {"what": "cpd", "node": v, "impl_parents": ps, "model_parents": mps,
+                    "impl": sorted(tab.items())[:8], "model": sorted((k, float(q)) for k, q in mtab.items())[:8]}
+    if sorted(idx[u] for u in d.latents) != sorted(case["lat"]):
+        return {"what": "latents"}
+    try:
+        d.check_model()
+    except Exception as e:
+        return {"what": "check_model", "error": repr(e)[:200]}
+    return None
+
+
+def run_sess(case, drv):
+    """m1 = model.do(S1) (a NEW network), then in-place operations on m1 and on networks derived from it.  After
+    every step the network each result was derived from must still equal its snapshot (edges, latents, every CPD
+    by named assignment, check_model), the results of the do() chain must equal the model's, and at the end an
+    interventional query on the original must still be the model's answer."""
+    from pgmpy.inference import CausalInference
+    m, names, sn = build_bn(case)
+    n = case["n"]
+    idx = {nm: i for i, nm in enumerate(names)}
+    rng = random.Random(case["qseed"])
+    eset = [tuple(e) for e in case["edges"]]
+    has_pa = [v for v in range(n) if any(w == v for (_, w) in eset)]
+    tags = ["sess n=%d" % n, "names=" + case.get("style", "str")]
+    snap0 = snapshot(m, names, sn, idx)
+    s0 = state_of(case)
+    d0 = cmp_state(m, s0, case, names, sn, idx)
+    if d0:
+        return bad("harness:built-network!=model-state", d0)
+
+    def orig_ok(step):
+        d = snapshot_diff(snap0, snapshot(m, names, sn, idx))
+        if d:
+            return bad("mutated-original:do-session", dict(d, after_step=step))
+        try:
+            m.check_model()
+        except Exception as e:
+            return bad("mutated-original:do-session", {"what": "check_model", "error": repr(e)[:200], "after_step": step})
+        return None
+
+    def nm(vs):
+        return [names[v] for v in vs]
+
+    # S1 leaves (when possible) a node with parents un-intervened
+    pool = list(range(n))
+    rng.shuffle(pool)
+    keep = rng.choice(has_pa) if has_pa else None
+    S1 = [v for v in pool if v != keep][:rng.randint(1, 2)] or [pool[0]]
+    # ---- step A: m1 = model.do(S1)
+    m1 = m.do(nm(S1))
+    s1 = state_do(drv, s0, S1)
+    d = cmp_state(m1, s1, case, names, sn, idx)
+    if d:
+        return bad("impl!=model:session-do", dict(d, step="A do(%s)" % S1))
+    b = orig_ok("A: m1 = model.do(%s)" % S1)
+    if b:
+        return b
+    # ---- step B: m1.do(S2, inplace=True) on nodes that still have parents in m1
+    pa1 = sorted({w for (_, w) in map(tuple, s1[1])})
+    S2 = rng.sample(pa1, min(len(pa1), rng.randint(1, 2))) if pa1 else [rng.randrange(n)]
+    r = m1.do(nm(S2), inplace=True)
+    s2 = state_do(drv, s1, S2)
+    d = cmp_state(m1, s2, case, names, sn, idx)
+    if d:
+        return bad("impl!=model:session-do", dict(d, step="B do(%s).do(%s, inplace)" % (S1, S2)))
+    b = orig_ok("B: m1 = model.do(%s); m1.do(%s, inplace=True)" % (S1, S2))
+    if b:
+        return b
+    tags.append("sess:do-inplace-on-node-with-parents" if pa1 else "sess:do-inplace-on-root")
+    # ---- step C: m2 = m1.do(S3) ; m1 is now the source and must stay as it is
+    snap1 = snapshot(m1, names, sn, idx)
+    S3 = rng.sample(range(n), rng.randint(1, 2))
+    m2 = m1.do(nm(S3))
+    s3 = state_do(drv, s2, S3)
+    d = cmp_state(m2, s3, case, names, sn, idx)
+    if d:
+        return bad("impl!=model:session-do", dict(d, step="C do.do(inplace).do(%s)" % S3))
+    # ---- step D: in-place do on m2 (a node with parents if there is one)
+    pa3 = sorted({w for (_, w) in map(tuple, s3[1])})
+    S4 = [rng.choice(pa3)] if pa3 else [rng.randrange(n)]
+    m2.do(nm(S4), inplace=True)
+    s4 = state_do(drv, s3, S4)
+    d = cmp_state(m2, s4, case, names, sn, idx)
+    if d:
+        return bad("impl!=model:session-do", dict(d, step="D ...do(%s, inplace)" % S4))
+    d = snapshot_diff(snap1, snapshot(m1, names, sn, idx))
+    if d:
+        return bad("mutated-original:do-session", dict(d, after_step="D: m2 = m1.do(%s); m2.do(%s, inplace=True) changed m1" % (S3, S4)))
+    b = orig_ok("D: chain do -> do(inplace) -> do -> do(inplace)")
+    if b:
+        return b
+    # ---- step E: destructive in-place edits on a fresh do() result
+    S5 = [v for v in pool if v != keep][:1] or [pool[0]]
+    m3 = m.do(nm(S5))
+    s5 = state_do(drv, s0, S5)
+    with_pa = [c for c in s5[4] if c[1]]
+    ops = ["marginalize", "reduce", "setvalue", "replace", "remove_node", "normalize"]
+    rng.shuffle(ops)
+    for op in ops:
+        desc = op
+        if op in ("marginalize", "reduce", "setvalue", "normalize"):
+            cands = [c for c in (with_pa or s5[4]) if names[c[0]] in m3.nodes()]
+            cands = [c for c in cands if m3.get_cpds(names[c[0]]) is not None]
+            if not cands:
+                continue
+            c = rng.choice(cands)
+            cpd = m3.get_cpds(names[c[0]])
+            others = list(cpd.variables[1:])
+            if op == "marginalize" and others:
+                cpd.marginalize([rng.choice(others)], inplace=True)
+            elif op == "reduce" and others:
+                u = rng.choice(others)
+                cpd.reduce([(u, cpd.state_names[u][0])], inplace=True)
+            elif op == "setvalue":
+                cpd.values[tuple([0] * cpd.values.ndim)] = 0.015625
+            elif op == "normalize":
+                cpd.values[tuple([0] * cpd.values.ndim)] = 0.5
+                cpd.normalize(inplace=True)
+            else:
+                continue
+            desc = "%s on the CPD of node %d" % (op, c[0])
+        elif op == "replace":
+            v = rng.randrange(n)
+            if names[v] not in m3.nodes() or m3.get_cpds(names[v]) is None:
+                continue
+            new = m3.get_cpds(names[v]).copy()
+            new.values[tuple([0] * new.values.ndim)] = 0.25
+            new.normalize(inplace=True)
+            m3.add_cpds(new)
+            desc = "add_cpds replacement for node %d" % v
+        elif op == "remove_node":
+            ch = [u for (u, w) in map(tuple, s5[1]) if names[u] in m3.nodes() and names[w] in m3.nodes()]
+            if not ch:
+                continue
+            u = rng.choice(ch)
+            m3.remove_node(names[u])
+            desc = "remove_node(%d) (a node with children)" % u
+        b = orig_ok("E: m3 = model.do(%s); in place on m3: %s" % (S5, desc))
+        if b:
+            return b
+        tags.append("sess:" + op)
+    # ---- a query on the original still gives the model's answer
+    ci = CausalInference(m)
+    xs = has_pa or list(range(n))
+    x = rng.choice(xs)
+    blocked = {x} | {u for (u, w) in eset if w == x}
+    adm = [v for v in range(n) if v not in blocked]
+    if adm:
+        fnd = Findings()
+        stats = {"queries": 0, "adjusted": 0}
+        b = check_query(case, drv, ci, names, sn, [rng.choice(adm)], [(x, rng.randrange(case["cards"][x]))], None,
+                        "ve", fnd, tags, stats)
+        if b:
+            b["kind"] = "after-session:" + b["kind"]
+            return b
+    return ok(nontrivial=bool(has_pa), key=common.canon_key(["sess", n, case["edges"], case["lat"], case["cards"],
+                                                             case["cpds"], case["qseed"]]), tags=tags)
+
+
 def run_case(case, drv):
     k = case["kind"]
     if k == "graph":
@@ -714,4 +940,6 @@ def run_case(case, drv):
         return run_bn(case, drv)
     if k == "sim":
         return run_sim(case, drv)
+    if k == "sess":
+        return run_sess(case, drv)
     return bad("harness:unknown-kind", {"kind": k})
